@@ -63,6 +63,7 @@ func Seed() int {
 func New(prop, level string) *Run {
 	r := &Run{Prop: prop, Tier: Tier(), Level: level, Seed: Seed(), Coverage: map[string]any{}, start: time.Now(),
 		known: map[string]Finding{}, knownHit: map[string]int{}, unknown: map[string]string{}}
+	_ = os.RemoveAll(filepath.Join(Root, "replays", prop))
 	var kf knownFile
 	if b, err := os.ReadFile(filepath.Join(Root, "known_findings.json")); err == nil {
 		if err := json.Unmarshal(b, &kf); err != nil {
